@@ -326,9 +326,11 @@ def http_relay(d0: int, d1: int, d2: int, s0: int, s1: int) -> bool:
             return fail('teardown on request')
         us = env.connects[0][1]
         # request goes out
-        for j in range(4):
+        for j in range(80):
             if _step(h, cs, us, 15):
                 return fail('teardown while forwarding request')
+            if j >= 3 and not h.plugin.upstream.has_buffer():
+                break
         if not us.out.startswith(b'GET /x HTTP/1.1\r\n'):
             return fail('request not forwarded', out=repr(us.out))
     cs.mode = 'class'
@@ -356,6 +358,21 @@ def http_relay(d0: int, d1: int, d2: int, s0: int, s1: int) -> bool:
         if cs.out + envkit.pending(h.work) != sent:
             return fail('client stream: delivered + pending != upstream bytes so far',
                         out=repr(cs.out), pend=repr(envkit.pending(h.work)), sent=repr(sent))
+    if CFG.get('eof'):
+        # the upstream closes right behind its last byte, while the client may not have drained yet:
+        # the proxy may ask for teardown only once everything it received has been handed to the client socket
+        us.inq.append(b'')
+        for j in range(2 * len(R) + 10):
+            try:
+                td = _step(h, cs, us, 15)
+            except Exception as ex:
+                return fail('exception left handle_events after upstream EOF', exc=repr(ex))
+            if td:
+                if h.work.has_buffer() or cs.out != R:
+                    return fail('teardown requested while upstream bytes are still undelivered (they are lost at close)',
+                                out_len=len(cs.out), want_len=len(R), pending=len(envkit.pending(h.work)))
+                return ok()
+        return fail('connection not ended after upstream EOF and a drained client')
     for j in range(12):
         if cs.out == R:
             break
@@ -407,6 +424,10 @@ def obligations(tier):
         n = len(R)
         obs.append({'name': 'relay.%s.whole' % tpl, 'fn': 'http_relay', 'group': 'http_relay',
                     'cfg': {'tpl': tpl, 'cuts': []}, 'timeout': 120})
+        if tpl in ('close', 'cl3', 'ch21'):
+            for c in ([], [n - 2], [20]):
+                obs.append({'name': 'relay.%s.eof.cut%s' % (tpl, '_'.join(map(str, c)) or 'none'), 'fn': 'http_relay', 'group': 'http_relay',
+                            'cfg': {'tpl': tpl, 'cuts': c, 'eof': True, 'small': True}, 'timeout': 200})
         for c in range(1, n):
             if tier == 'quick' and c < n - 14 and c % 7 != 0:
                 continue
